@@ -297,10 +297,14 @@ class GeckoAsyncSpaMan(ABC, AsyncTasks):
         try:
             self._spa_name = spa_descriptor.name
             await self._handle_event(GeckoSpaEvent.CONNECTION_STARTED)
-            self._spa = GeckoAsyncSpa(
+            spa = self._spa = GeckoAsyncSpa(
                 self._client_id, spa_descriptor, self, self._handle_event
             )
-            await self._spa.connect()
+            await spa.connect()
+            if self._spa is not spa:
+                # A reset let go of this spa while it was connecting. Whatever
+                # state the abandoned attempt left behind is not to be trusted
+                raise RuntimeError("Connection attempt was abandoned by a reset")
             # Check state now
             if self._spa_state == GeckoSpaState.SPA_READY:
                 self._facade = GeckoAsyncFacade(self._spa, self)
